@@ -86,6 +86,7 @@ const c20BaseOps = 9
 
 // c20Op executes operation kind for the actor and returns a digest of everything it produced.
 func c20Op(a *c20Actor, kind int) [32]byte {
+	fw.Beat()
 	h := sha256.New()
 	r := a.r
 	switch kind {
